@@ -41,6 +41,8 @@ def gen(ctx):
         else:
             gb = rng.choice(GARBAGE)
             kind = "invalid" if gb in INVALID else "garbage"
+            if kind == "invalid":
+                labels += ["S*", "D0"]      # at a line boundary, so that the bytes really are a malformed line
             labels += ["G:" + hexs(gb)]
         for _ in range(rng.choice([0, 1, 2, 4])):
             r = rng.random()
@@ -111,6 +113,36 @@ def run(ctx, only=None):
             leftover = L.leftover_after_responses(stream)
             unclean = info["fault"] in ("r", "invalid") or (info["fault"] in ("cut", "e") and leftover != b"")
             # (a failure whose in-flight caller was cancelled has nobody to be reported to: not judged)
+            # attribution: the failure belongs to the caller whose request was in flight (dequeued: noidle written, or the
+            # request itself written and unanswered) when the fault struck
+            fl = next((i for i, l in enumerate(s.labels) if l == "r" or l == "e" or l.startswith("G:")), None)
+            k = next((m for m in r["marks"][fl:] if m is not None), None) if fl is not None else None
+            if unclean and held and not info["cancelled"] and k is not None:
+                before = [l for i, l in t.written_lines() if i < k]
+                order = sorted(info["requests"])
+                units, in_list = 0, False
+                last_is_noidle = False
+                for l in before:
+                    if in_list:
+                        in_list = l != b"command_list_end"
+                        continue
+                    if l in (b"idle", b"noidle"):
+                        last_is_noidle = l == b"noidle"
+                        continue
+                    units += 1
+                    last_is_noidle = False
+                    in_list = l == b"command_list_ok_begin"
+                inflight = None
+                if last_is_noidle and units < len(order):
+                    inflight = order[units]
+                elif units >= 1 and not last_is_noidle and before and before[-1] != b"idle":
+                    cand = order[units - 1]
+                    if cand not in res or res[cand][0] >= k:
+                        inflight = cand
+                if inflight is not None and inflight in res and not res[inflight][1].startswith("proto:") \
+                        and not res[inflight][1].startswith("ok[") and not res[inflight][1].startswith("ack("):
+                    v.append(f"the failure struck while request {inflight} was in flight, but its caller received {res[inflight][1]!r} "
+                             f"(a clean-close answer) instead of the protocol error; events {evs}")
             if unclean and held and not info["cancelled"]:
                 surfaced = any(x[1].startswith("proto:") for x in res.values()) or bool(closed_evs)
                 if not surfaced:
